@@ -167,6 +167,23 @@ fn malform(r: &mut Rng, s: &str) -> String {
     let i = r.below(chars.len());
     let junk = ['$', '#', 'x', ')', '(', ',', '.', '?', 'q', '⌋', '!', '@'];
     let mut c = chars.clone();
+    if r.chance(0.25) {
+        // numeric-literal trouble: the places where the tokenizers `.unwrap()` a parse
+        let junk_lits = ["1.2.3", "1..2", ".5.5", "99999999999999999999", "0.0.0", "3.", "12345678901234567890123456789012345", "1.e", "7.7.7+1"];
+        let lit: Vec<char> = r.pick(&junk_lits).chars().collect();
+        // replace the first digit run, or append
+        if let Some(p) = c.iter().position(|x| x.is_ascii_digit()) {
+            let mut q = p;
+            while q < c.len() && (c[q].is_ascii_digit() || c[q] == '.') {
+                q += 1;
+            }
+            c.splice(p..q, lit);
+        } else {
+            c.push('+');
+            c.extend(lit);
+        }
+        return c.into_iter().collect();
+    }
     match r.below(6) {
         0 => {
             c.remove(i);
